@@ -84,9 +84,10 @@ fn gen_block(rng: &mut Rng, pool: &Pool, fam: usize) -> Vec<u8> {
         let inv: Vec<Vec<u8>> = (0..n).map(|_| { let mut v = vec![]; head(&mut v, 0, if rng.chance(1, 8) { rng.u64_edgy() & 0xffff_ffff } else { rng.below(k as u64 + 2) }); v }).collect();
         let mut v = vec![]; array(&mut v, &inv, rng.chance(1, 6)); parts.push(v);
     }
-    let mut out = vec![0x82];
+    let mut out = if rng.chance(1, 10) { vec![0x98, 0x02] } else { vec![0x82] };
     if rng.chance(1, 8) { out.push(0x18); out.push(tag as u8) } else { out.push(tag as u8) }
-    array(&mut out, &parts, false);
+    let indef_inner = rng.chance(1, 8);
+    array(&mut out, &parts, indef_inner);
     out
 }
 
@@ -101,7 +102,11 @@ fn ops_for(block: &[u8], n: usize, all: bool) -> Vec<String> {
 pub fn generate(g: &mut Gen) {
     // 1. corpus blocks
     for (_name, b) in fx::hex_files("block") {
-        if b.len() > 400_000 && !g.thorough() { continue; }
+        let n = fx::split_block(&b).map(|rb| rb.bodies.len().max(rb.byron_payloads.len())).unwrap_or(0);
+        g.case(ops_for(&b, n, g.thorough()));
+    }
+    if let Some(e) = fx::small_ebb() { g.case(ops_for(&e, 0, true)); }
+    for b in fx::chunk_blocks(if g.thorough() { 5 } else { 300 }) {
         let n = fx::split_block(&b).map(|rb| rb.bodies.len().max(rb.byron_payloads.len())).unwrap_or(0);
         g.case(ops_for(&b, n, g.thorough()));
     }
